@@ -253,7 +253,7 @@ class Check:
             if env:
                 e.update(env)
             jobs.append(dict(module=module, cwd=cwd, cfg=cfg or module + ".cfg", env=e, workers=1, timeout=timeout, lib=[os.path.join(SPEC, "core")], heap=heap, metaroot=self.dir,
-                             c1=os.path.getsize(f) < 3_000_000))
+                             c1=os.path.getsize(f) < 200_000))
         t0 = time.time()
         res = tlc_many(jobs)
         nev = 0
